@@ -140,10 +140,15 @@ class _FunctionCall(object):
             for i in range(len(args)):
                 ctx.in_object[i] = args[i]
 
-            for i, k in enumerate(_type_info.keys()):
+            for i, (k, v) in enumerate(_type_info.items()):
                 val = kwargs.get(k, None)
                 if val is not None:
                     ctx.in_object[i] = val
+
+                elif ctx.in_object[i] is None:
+                    # what is not passed is what a request that leaves it
+                    # out delivers: the declared default
+                    ctx.in_object[i] = v.Attributes.default
 
             if ctx.descriptor.body_style == BODY_STYLE_BARE:
                 ctx.in_object = ctx.descriptor.in_message \
